@@ -707,7 +707,11 @@ def run(ctx):
     # ---------------- threads leg (F11) ----------------
     serialized = True
     try:
+        import gen_consts
         serialized = consts()[0].get("provision_status_tag_writers_serialized", 1) == 1
+        for n in gen_consts.NOTES:
+            if ("provision" in n or "status.tag" in n) and n not in ctx.notes:
+                ctx.notes.append(n)
     except Exception:
         pass
     iters = 250 if ctx.quick else 1500
